@@ -106,3 +106,21 @@ Check (C11_stale_timer_cancels_newer_attempt_refuted :
     exec cfg_wt s1 w_stale_post = Some s2 /\ waiting (ps s2 0) = true /\ timers s2 = [0; 0] /\
     step cfg_wt s2 (Timer 0) = Some (s3, ev, cl) /\ ev = [UFail 0 E_REJECTED] /\ cl = [CForce 0] /\
     timers s3 = [0]).
+Check (C11_lazy_no_stuck :
+  forall (c : cfg) (cap : nat) (gs : list lop), snd (lrun c cap linit gs) = true).
+Check (C11_event_channel_no_loss :
+  forall (c : cfg) (cap : nat) (gs : list lop),
+    ltaken_run c cap linit gs ++ lq (lfinal c cap linit gs) = lemitted_run c cap linit gs).
+Check (C11_event_channel_step :
+  forall (c : cfg) (cap : nat) (l : lst) (g : lop) (l' : lst) (ev : list uev) (cl : list call),
+    lstep c cap l g = Some (l', ev, cl) ->
+    ltaken l g ++ lq l' = lq l ++ lemitted c cap l g /\ (ltaken l g <> [] -> ev = ltaken l g)).
+Check (C11_poll_delivers_oldest :
+  forall (c : cfg) (cap : nat) (l : lst) (e : uev) (rest : list uev),
+    lq l = e :: rest -> exists l' cl, lstep c cap l LPoll = Some (l', [e], cl)).
+Check (C11_capacity_only_delays :
+  forall (c : cfg) (cap1 cap2 : nat) (gs : list lop),
+    never_blocked c cap1 linit gs = true -> never_blocked c cap2 linit gs = true ->
+    map (fun x => (lcore (fst (fst x)), snd (fst x))) (fst (lrun c cap1 linit gs)) =
+    map (fun x => (lcore (fst (fst x)), snd (fst x))) (fst (lrun c cap2 linit gs)) /\
+    snd (lrun c cap1 linit gs) = snd (lrun c cap2 linit gs)).
